@@ -54,6 +54,37 @@ def run(chk, facts):
                f"rendered `{var['p']}` comes from {desc}: with_source attached" if passed else
                f"`{var['p']}` is rendered without with_source: it comes from {desc} - the diagnostic is printed as `<unknown>` without file name and source line", loc)
     chk.floor("R-C19-1", n_err, 4, "error rendering sites in mamba_to_python")
+    # (source, path) pairs are attached by position: only lists that have one element per input file may be zipped with `source`.
+    # The error half of a partition has one element per *failing* file, so zipping it with `source` pairs errors with the wrong file.
+    err_halves = set()
+    for n in walk(m2["body"]):
+        if n.get("k") == "local" and n.get("init") is not None and ".partition(" in src(n["init"]) and n["pat"].get("k") in ("ptuple", "ptype"):
+            tp = n["pat"]["p"] if n["pat"].get("k") == "ptype" else n["pat"]
+            if tp.get("k") == "ptuple" and len(tp["elems"]) == 2:
+                for p in walk(tp["elems"][1]):
+                    if p.get("k") == "pident":
+                        err_halves.add(p["name"])
+    changed = True
+    while changed:
+        changed = False
+        for n in walk(m2["body"]):
+            if n.get("k") == "local" and n.get("init") is not None:
+                root = _chain_root(n["init"])
+                if root in err_halves:
+                    for p in walk(n["pat"]):
+                        if p.get("k") == "pident" and p["name"] not in err_halves:
+                            err_halves.add(p["name"])
+                            changed = True
+    nz = 0
+    for n in walk(m2["body"]):
+        if n.get("k") == "mcall" and n["m"] == "zip" and n["args"] and src(strip(n["args"][0])) in ("source", "source.iter()"):
+            nz += 1
+            root = _chain_root(n["recv"])
+            ok = root not in err_halves
+            chk.ob("R-C19-1", f"zip-source:{root}", ok,
+                   f"`{root}` (one element per input file) is zipped with `source`" if ok else
+                   f"`{root}` holds only the failing files but is zipped with `source`, which holds every file: the i-th error gets the text and path of the i-th project file", loc)
+    chk.floor("R-C19-1", nz, 2, "zips with the per-file source list")
     # MIR cross-check per error type
     disp = {t: 0 for t in ERR_TYPES}
     wsrc = {t: 0 for t in ERR_TYPES}
@@ -134,8 +165,33 @@ def run(chk, facts):
         caret = "pos.start.pos)-1" in body_s or "pos.start.pos-1" in body_s
         chk.ob("R-C19-4", "renderer:caret-col=pos-1", caret, "the caret is indented by `pos - 1` columns" if caret else "the caret indentation is no longer `pos - 1`", locf)
         # the label of the quoted line is the reported line number
-        lab = re.search(r'format_args!\("\{[^"]*\|\{[^"]*",[^)]*pos\.start\.line\)', body_s) is not None or "pos.start.line" in body_s
-        chk.ob("R-C19-4", "renderer:label=line", lab, "the quoted line is labelled with pos.start.line", locf)
+        # each quoted line: 0-based index handed to nth() must be (1-based label) - 1, both relative to pos.start.line
+        lets = {}
+        for n in walk(fl["body"]):
+            if n.get("k") == "local" and n.get("init") is not None and n["pat"].get("k") in ("pident", "ptype"):
+                nm = [p["name"] for p in walk(n["pat"]) if p.get("k") == "pident"]
+                if len(nm) == 1:
+                    lets[nm[0]] = n["init"]
+        quoted = 0
+        for n in walk(fl["body"]):
+            if n.get("k") == "mcall" and n["m"] == "map_or" and strip(n["recv"]).get("k") == "mcall" and strip(n["recv"])["m"] == "nth":
+                idx_e = strip(strip(n["recv"])["args"][0])
+                idx = _affine(lets.get(src(idx_e), idx_e) if idx_e.get("k") == "path" else idx_e)
+                labels = []
+                for m in walk(n["args"][1]):
+                    if m.get("k") == "macro" and m.get("name", "").endswith("format_args") and "args" in m:
+                        for a in m["args"][1:]:
+                            if "pos." in src(a):
+                                labels.append(_affine(a))
+                quoted += 1
+                if idx == "never":
+                    chk.ob("R-C19-4", f"quoted-line{quoted}", True, f"quoted line {quoted}: never shown (index usize::MAX)", locf)
+                    continue
+                ok = isinstance(idx, int) and len(labels) == 1 and isinstance(labels[0], int) and labels[0] == idx + 1
+                chk.ob("R-C19-4", f"quoted-line{quoted}", ok,
+                       f"quoted line {quoted}: text of line start{idx + 1:+d} is labelled start{labels[0]:+d}" if ok else
+                       f"quoted line {quoted}: nth({src(idx_e)}) = {idx}, label {labels}: the text that is printed is not the line whose number is printed next to it", locf)
+        chk.floor("R-C19-4", quoted, 3, "quoted source lines in format_location")
     except AnchorError as e:
         chk.anchor_fail("R-C19-4", e)
     try:
@@ -166,6 +222,20 @@ def run(chk, facts):
     except AnchorError as e:
         chk.anchor_fail("R-C19-4", e)
     chk.notes.append("C19: provenance of every rendered error; non-emptiness of every Err(vector); renderer obligations shared with the C03 census.")
+
+
+def _affine(e):
+    """`pos.start.line (as i32) +/- K` (optionally inside max(.., usize::MAX as i32) as usize) -> K ; 'never' ; 'unknown'"""
+    t = src(strip(e)).replace(" ", "").replace("(", "").replace(")", "").replace("asi32", "").replace("asusize", "")
+    if t in ("maxpos.start.line,usize::MAX",):
+        return "never"
+    m = re.fullmatch(r"max(pos\.start\.line(?:[-+]\d+)?),usize::MAX", t)
+    if m:
+        t = m.group(1)
+    m = re.fullmatch(r"pos\.start\.line(?:([-+])(\d+))?", t)
+    if m:
+        return 0 if m.group(1) is None else (int(m.group(2)) if m.group(1) == "+" else -int(m.group(2)))
+    return "unknown"
 
 
 def _trace_binding(sc, pm, b, depth):
@@ -232,6 +302,13 @@ def _trace_expr(sc, pm, e, depth):
     if k == "macro":
         return "not-an-error", True, "formatted text"
     return "not-an-error", True, src(e)[:40]
+
+
+def _chain_root(e):
+    cur = strip(e)
+    while cur.get("k") in ("mcall", "try", "field"):
+        cur = strip(cur["recv"] if cur.get("k") == "mcall" else (cur["e"] if cur.get("k") == "try" else cur["base"]))
+    return cur["p"] if cur.get("k") == "path" else src(cur)[:30]
 
 
 def _enclosing(pm, node, kind):
